@@ -521,8 +521,12 @@ def main(argv):
         os.makedirs(evdir, exist_ok=True)
         json.dump(ev, open(os.path.join(evdir, pid + ".json"), "w"), indent=1, default=str)
 
-    for k in known_hits.values():
-        print(f"KNOWN-FINDING: property={pid} {k['id']} {k['what']}")
+    # every OPEN listed finding of this property is announced on every run (an intermittent one may not have been
+    # observed by this run's campaign; the evidence says which were)
+    for k in known:
+        if k.get("property") == pid and k.get("status") == "open" and not replay:
+            seen_now = "observed in this run" if k["id"] in known_hits else "not observed in this run"
+            print(f"KNOWN-FINDING: property={pid} {k['id']} ({seen_now}) {k['what']}")
     for path, suffix in violations:
         print(f"VIOLATION property={pid} replay={path}{suffix}")
     if extra_info.get("extra_cases"):
